@@ -248,8 +248,10 @@ func (k *checker) model(id string, m *gen.Model, origin string, opts ld.Opts, r 
 	if !s.Begin(id) {
 		return
 	}
-	project := projectName(m)
-	sites := findSites(m.Doc, project)
+	// the sites are enumerated twice: first to learn which keys the explicit spellings add (the
+	// layout must place them), then, once the implicit model is loaded, with the name of the
+	// loaded project, which is what <project> in `<project>_<key>` refers to
+	sites := findSites(m.Doc, projectName(m))
 	full := gen.CloneTree(m.Doc).(M)
 	for _, st := range sites {
 		st.Explicit(full)
@@ -267,6 +269,7 @@ func (k *checker) model(id string, m *gen.Model, origin string, opts ld.Opts, r 
 		s.Cover("implicit-load-error", origin+": "+errShape(err))
 		return
 	}
+	sites = findSites(m.Doc, pI.Name)
 	s.Add("implicit_loaded", 1)
 	s.Cover("origin", origin)
 	s.Cover("options", opts.String())
@@ -437,12 +440,12 @@ func (k *checker) model(id string, m *gen.Model, origin string, opts ld.Opts, r 
 	}
 	if compared > 0 {
 		s.Nontrivial(ic.Key())
-		if s.WantSample() && len(ic.Files[ic.ComposeFiles[0]]) < 900 && origin == "main" {
+		if s.WantSample() {
 			var rules []string
 			for _, st := range sites {
 				rules = append(rules, st.Rule+"@"+st.Where)
 			}
-			s.Sample(map[string]any{"case": id, "origin": origin, "implicit_document": ic.Files[ic.ComposeFiles[0]], "implicit_default_sites": rules,
+			s.Sample(map[string]any{"case": id, "origin": origin, "implicit_document": clip(ic.Files[ic.ComposeFiles[0]], 1200), "implicit_default_sites": rules,
 				"verdict": "all explicit spellings loaded to the same project; other values survived"})
 		}
 	}
@@ -455,6 +458,7 @@ func run(s *core.Shard) {
 		scale = 10
 	}
 	n := s.Pick(1200, 12000) / scale
+	runNames(s, n)
 	for j := 0; j < n; j++ {
 		if !s.Mine(j) {
 			continue
@@ -483,6 +487,11 @@ func run(s *core.Shard) {
 			}
 		}
 		m := gen.Draw(r, cfg)
+		if r.Intn(5) == 0 {
+			// a `name:` in the file while the caller names the project: the project's name is the caller's
+			m.Doc["name"] = "name-from-file"
+			m.NameInFile = false
+		}
 		origin := origins[j%len(origins)]
 		opts := ld.Opts{}
 		if r.Intn(6) == 0 {
@@ -546,6 +555,13 @@ func witness(s *core.Shard, f core.Finding) (bool, string) {
 		return false, fmt.Sprintf("witness unreadable: %v", err)
 	}
 	return rerun(s, &rc)
+}
+
+func clip(x string, n int) string {
+	if len(x) > n {
+		return x[:n] + "\n... (clipped)"
+	}
+	return x
 }
 
 var reShape = regexp.MustCompile(`[0-9]+|/[A-Za-z0-9_./-]+`)
